@@ -154,4 +154,20 @@ PROPS = {
                                     "rlimit:writer_reported_failure": 2.0, "size:large(>60 blocks)": 0.02}},
         assumptions=["cfitsio reaches the file only through the interposed stdio calls (verified: the recorded trace reproduces the file byte for byte, checked by the equal-load of the final state)"],
     ),
+    "C12": dict(
+        level="exploration",
+        level_text="The harness owns the thread schedule: cholesky_solve.c is compiled with its pthread_create/join/mutex/cond/exit calls renamed (-D) to a shim that runs the threads one at a time and makes every call a scheduling point. walk_descents is called on generated line-search problems; for the smallest configurations (1-2 workers, 1-3 blocks) the schedule tree is enumerated exhaustively by stateless DFS (one forked child per schedule), larger configurations (up to 4 workers, more workers than trial steps) are sampled with PCT-priority and uniform random schedules. Every schedule must terminate (a state with unfinished threads and none runnable is a lost wake-up / deadlock) and return outputs (x, H1, residual, return value) bit-identical to the canonical schedule. A ThreadSanitizer build runs real monotonic fits with 1..32 workers and requires race-free, identical coefficients.",
+        level_note="Interleavings are explored at the granularity of the synchronisation calls; plain-memory races are visible only to the TSan runs (happens-before on the executions that occur) and not inside uninstrumented CHOLMOD. DFS is exhaustive per generated problem when the tree fits the budget (reported per case).",
+        technique="schedule fuzzing with harness-owned scheduler: exhaustive stateless DFS for small configurations, PCT/random schedules for larger ones, driven by rapidcheck-generated problems; ThreadSanitizer on real threads",
+        units=[U("c12_sched", "c12_sched.cpp", variant="plain", extra_srcs=["vsched.cpp"], flags=["-I{REPO}/src/fitter"], exclude_objs=["cholesky_solve.o"],
+                 repo_srcs=[("src/fitter/cholesky_solve.c", ["-Dpthread_create=vs_create", "-Dpthread_join=vs_join", "-Dpthread_mutex_lock=vs_lock", "-Dpthread_mutex_unlock=vs_unlock",
+                                                            "-Dpthread_cond_wait=vs_cond_wait", "-Dpthread_cond_broadcast=vs_broadcast", "-Dpthread_exit=vs_exit", "-Dsched_setaffinity=vs_setaffinity"])],
+                 quick=64, thorough=640, names=["sched_dfs", "sched_pct"], leaks=False, no_isolate_rerun=True)],
+        rule="a case = one line-search problem (1..6 unknowns, 0..6 infeasible components => 2..8 trial steps, 1..4 workers) and a set of schedules: sched_dfs enumerates the tree of "
+             "choice sequences (budget 2500 leaves quick / 450000 thorough; 'exhaustive_tree' when the tree was finished), sched_pct runs 300 (3000) PCT/random schedules. evaluations "
+             "counts problems; class 'schedules' counts executed schedules. Non-trivial schedule: a worker finished a computation while the coordinator was between unlock and wait, "
+             "or at least two context switches; distinct = hash(problem, choice sequence).",
+        essential={"sched_dfs": {"schedules": 50.0, "dfs:exhaustive_within_preemption_bound": 0.12}, "sched_pct": {"schedules": 50.0, "schedule:worker_finished_in_coordinator_window": 1.0}},
+        assumptions=["the shim's model of mutexes/condition variables follows POSIX semantics without spurious wake-ups"],
+    ),
 }
